@@ -689,6 +689,28 @@ Definition run_obs (ci cr : config) (e : env) :=
      (reconnect_obs (r_store i) (r_store r), reconnect_obs (r_store r) (r_store i)))
   end.
 
+(* negotiation only (request -> responder handler -> response -> initiator handler), packed for the
+   exhaustive correspondence through the real handlers: per session one number
+   method + 8 * (display + 2 * (sc + 2 * (bonding + 2 * (ct2 + 2 * (ikd + 256 * rkd)))))
+   and the expected commands as a bit set; -1: KeyError; -2 - reason: Pairing Failed sent *)
+Definition pack_session (s : session) : Z :=
+  s_method s + 8 * (Z.b2z (s_display s) + 2 * (Z.b2z (s_sc s) + 2 * (Z.b2z (s_bonding s) + 2 *
+    (Z.b2z (s_ct2 s) + 2 * (s_ikd s + 256 * s_rkd s))))).
+Definition pack_cmds (l : list Z) : Z := fold_right (fun c acc => Z.lor (Z.shiftl 1 c) acc) 0 l.
+
+Definition negotiate_obs (ci cr : config) : list Z :=
+  let req := request_of ci in
+  match responder_session false cr (default_answer cr req) req with
+  | None => [-1]
+  | Some sr =>
+    [pack_session sr; pack_cmds (s_expected sr)] ++
+    match initiator_session false ci (response_of cr sr) with
+    | NegOk si => [pack_session si; pack_cmds (s_expected si)]
+    | NegFail reason => [-2 - reason]
+    | NegError => [-1]
+    end
+  end.
+
 (* CTKD over BR/EDR between [ci] and [cr] (link key authenticated or not): per side whether it
    reports completion and the authenticated flags of the slots it stores *)
 Definition ctkd_obs (ci cr : config) (lk_auth : bool) : list (list (list Z)) :=
